@@ -263,6 +263,19 @@ class Ctx:
             self.oblige(f'theorem {t}', 'theorem', ok_t,
                         f'axioms={ax}' if ok_t else str(ax))
             allok &= ok_t
+        if self.thorough:
+            # independent re-check of the compiled module by leanchecker
+            t1 = time.time()
+            try:
+                r = subprocess.run(['lake', 'env', 'leanchecker', module],
+                                   cwd=LEAN, capture_output=True, text=True,
+                                   timeout=1800)
+                okc, det = r.returncode == 0, (r.stdout + r.stderr)[-300:]
+            except Exception as e:      # noqa
+                okc, det = False, f'{type(e).__name__}: {e}'
+            self.cov['leanchecker_s'] = round(time.time()-t1, 1)
+            self.oblige(f'leanchecker re-checks {module}', 'audit', okc, det)
+            allok &= okc
         if theorems:
             t = theorems[0]
             self.samples.append({'theorem': t,
